@@ -45,6 +45,12 @@
 (*                     differ (pxyproto); the dial to the first is refused *)
 (*                     and the next instance gets (or misses) the PROXY    *)
 (*                     line according to the options of the failed one     *)
+(*   DialDeadlineStays - proxy.dialtimeout bounds the dial (and whatever   *)
+(*                     else is done while the connection is set up); a     *)
+(*                     tunnel that is older than that is not affected      *)
+(*   RefreshClosesTunnels - a tcp-dynamic listener looks at the routing    *)
+(*                     table every `refresh`; while the route of a tunnel  *)
+(*                     exists a refresh does nothing to it                 *)
 (* The design: a failed direction only ends itself; what the other side    *)
 (* sent before it finished cleanly still reaches its peer.                 *)
 (*                                                                         *)
@@ -63,6 +69,8 @@ CONSTANTS
     AbortOnError,      \* deviation (defect class): first failed direction ends the tunnel
     ResetOnError,      \* deviation (defect class): connections are reset when the tunnel ended with an error
     StaleTargetOptions,   \* deviation (defect class): after a refused dial the next instance is dialled with the failed one's options
+    DialDeadlineStays,    \* deviation (defect class): a deadline armed while the connection was set up (proxy.dialtimeout) stays on the upstream connection
+    RefreshClosesTunnels, \* deviation (defect class): a refresh of the tcp-dynamic listeners ends tunnels whose route still exists
     ReadTimeoutArmsWrite, \* deviation (defect class): the listener's read timeout also expires writes to the client
     PeekN              \* bytes the SNI path peeks before it knows the hello length
 
@@ -322,6 +330,24 @@ CUEof == /\ ppc = "copy" /\ cpCU.pc = "eof"
          /\ UNCHANGED <<sc, cli, ups, c2p, u2p, p2c, ppc, bio, hbuf, cpUC, inW, firstFin>>
 
 \* copier upstream -> client
+\* sc.dt = 1: the proxy has a dial timeout and the upstream speaks when the tunnel is older than that.
+\* The design has nothing to say about it: the timeout is over when the connection is set up.
+UCReadExpired == /\ ppc = "copy" /\ cpUC.pc = "read" /\ DialDeadlineStays /\ sc.dt = 1
+                 /\ cpUC' = Cp("failed", <<>>, FALSE)
+                 /\ p2c' = IF ~inW /\ CAlive THEN Append(p2c, EOFm) ELSE p2c
+                 /\ inW' = TRUE
+                 /\ UNCHANGED <<sc, cli, ups, c2p, p2u, u2p, ppc, bio, hbuf, cpCU, outW, firstFin>>
+
+\* sc.refresh = 1: the listener is a tcp-dynamic one; it re-reads the routing table again and again while
+\* the tunnel lives.  The table does not change, so nothing happens to the tunnel.
+Refresh == /\ ppc = "copy" /\ sc.refresh = 1 /\ RefreshClosesTunnels
+           /\ ppc' = "done"
+           /\ p2u' = IF ~outW /\ uState # "closed" THEN Append(p2u, EOFm) ELSE p2u
+           /\ p2c' = IF ~inW /\ CAlive THEN Append(p2c, EOFm) ELSE p2c
+           /\ c2p' = <<>> /\ u2p' = <<>>
+           /\ inW' = TRUE /\ outW' = TRUE
+           /\ UNCHANGED <<sc, cli, ups, bio, hbuf, cpCU, cpUC, firstFin>>
+
 UCRead == /\ ppc = "copy" /\ cpUC.pc = "read" /\ u2p # <<>>
           /\ IF u2p[1] = EOFm
              THEN cpUC' = Cp("eof", <<>>, FALSE) /\ u2p' = Tail(u2p)
@@ -371,7 +397,7 @@ Terminated == ppc = "done" /\ ~CAlive /\ (uState = "closed" \/ ~uConn)
 Next == \/ CWrite \/ CFin \/ CRead \/ CCloseAfterEOF \/ CAbort
         \/ UWrite \/ UFin \/ URead \/ UCloseAfterEOF
         \/ Peek \/ ReadHello \/ Dial \/ DialRefused \/ ProxyHdr \/ ReplayHello \/ Ws101
-        \/ CURead \/ CUWrite \/ CUEof \/ CUTimeout \/ UCRead \/ UCWrite \/ UCEof \/ Finish
+        \/ CURead \/ CUWrite \/ CUEof \/ CUTimeout \/ UCReadExpired \/ Refresh \/ UCRead \/ UCWrite \/ UCEof \/ Finish
         \/ (Terminated /\ UNCHANGED vars)          \* so that TLC's deadlock check means "stuck before the end"
 
 Spec == Init /\ [][Next]_vars
